@@ -115,25 +115,26 @@ inductive Restored where
   | unmod (why : String)
 deriving Repr
 
-/-- re-execution of the logged commands: a SELECT record only sets a local variable, every other
-    record runs through handleCommand with a nil connection, i.e. on database 0; errors are logged
-    and skipped, a panic ends the process -/
-def replay (now : Int) : List LogItem → State → Restored
-  | [], s => .ok s
-  | .scalar :: _, _ => .panic            -- Decode returns no words; `cmd[0]` is out of range
-  | .foreign :: _, _ => .unmod "log bytes the reader may resynchronise on"
-  | .cmd [] :: _, _ => .panic
-  | .cmd cmd :: rest, s =>
+/-- re-execution of the logged commands: a SELECT record sets the database of the records that follow
+    (the restore starts in database 0), every other record runs through handleCommand with a nil
+    connection in that database; errors are logged and skipped, a panic ends the process -/
+def replay (now : Int) : Int → List LogItem → State → Restored
+  | _, [], s => .ok s
+  | _, .scalar :: _, _ => .panic            -- Decode returns no words; `cmd[0]` is out of range
+  | _, .foreign :: _, _ => .unmod "log bytes the reader may resynchronise on"
+  | _, .cmd [] :: _, _ => .panic
+  | db, .cmd cmd :: rest, s =>
     if eqFold (cmd.headD []) (b "select") && isAscii (cmd.headD []) then
       match parseInt64 (cmd.getD 1 []) with
-      | some _ => replay now rest s
+      | some i => replay now i rest s
       | none => .ok s                     -- strconv.Atoi fails: Restore returns, nothing more is read
-    else if (cmd.drop 1).any (fun k => match s.lookup 0 k with | some ⟨.ilist _, _⟩ => true | _ => false) then
+    else if db < 0 then .unmod "record replayed under a negative database index"
+    else if (cmd.drop 1).any (fun k => match s.lookup db.toNat k with | some ⟨.ilist _, _⟩ => true | _ => false) then
       .unmod "command on a key holding []interface{} (GetMem fails: deletes and overwrites misbehave)"
     else
-      match step { db := 0, now := now, conn := some 0 } s cmd with
+      match step { db := db.toNat, now := now, conn := some 0 } s cmd with
       | none => .unmod "command outside the model"
-      | some (s', .done _) => replay now rest s'
+      | some (s', .done _) => replay now db rest s'
       | some (_, .panic _) => .panic
       | some (_, .unmod w) => .unmod w
 
@@ -146,7 +147,7 @@ def restore (now : Int) (pre : Option (List (Nat × List (Bytes × Entry)))) (lo
   | some ds =>
     match restoreDataset now s0 ds with
     | none => .panic
-    | some s1 => replay now (parseLogItems (log.length + 1) log).1 s1
+    | some s1 => replay now 0 (parseLogItems (log.length + 1) log).1 s1
 
 /-! ### snapshots (internal/snapshot/snapshot.go:308 Restore) -/
 
